@@ -137,7 +137,11 @@ func cmdConc(args []string) {
 		summary(map[string]any{"calls": len(calls), "shared_expressions": len(shared), "events": 0, "goroutines": 0})
 		return
 	}
-	// concurrent phase
+	// concurrent phase.  Before it, this process customises a driver instance of its own, as a user of the package may: the
+	// results of the package-level renderers are functions of their arguments alone, so nothing of that may show in them
+	if *phase == "conc" {
+		customiseOneDriver()
+	}
 	type event struct {
 		Seq    int64  `json:"seq"`
 		Ev     string `json:"ev"`
